@@ -54,3 +54,11 @@ def _dispatch():
     from translate import gen_dispatch
     from kyupy import sim, logic_sim
     return gen_dispatch.generate(sim, logic_sim)[0]
+
+
+@register('TechLibs')
+def _techlibs():
+    import os
+    from translate import gen_techlibs
+    from vcheck import core
+    return gen_techlibs.generate(os.path.join(core.REPO, 'src', 'kyupy', 'techlib.py'))[0]
